@@ -58,7 +58,7 @@ chk.extra['rule'] = ('graph pairs: exhaustive small graphs (graph atlas, random 
                      '(>= 1 isomorphism / common subgraph of >= 2 nodes was found or |Aut(pattern)| > 1); '
                      'distinct = distinct protocol line')
 chk.trusted.append('harness/c06.py: graph encoding, canonicalisation of mappings, Python brute-force oracle')
-chk.lean(['VermouthProps.C06', 'VermouthProps.C06_Ismags', 'VermouthProps.C06_IsmagsLcs'], 'driver_c06')
+chk.lean(['VermouthProps.C06', 'VermouthProps.C06_Ismags', 'VermouthProps.C06_IsmagsLcs', 'VermouthProps.C06_IsmagsSym'], 'driver_c06')
 
 import networkx as nx
 from vermouth.ismags import ISMAGS
@@ -361,6 +361,9 @@ def call_iso(cid, P, ism, symmetry, alias=False, ctx=''):
             chk.count('constraints=%s' % (len(cons) if len(cons) <= 2 else '3-6' if len(cons) <= 6 else '>6'))
             if any(lo >= hi for lo, hi in cons):
                 chk.count('constraint_not_low_lt_high')
+            # hypothesis constraintsValidB of theorem ismags_find_one_per_class: the constraints analyze_symmetry +
+            # _make_constraints delivered are exactly the stabiliser-chain orbits of the pattern (verified checker)
+            add('%s-tvalid' % cid, line('tvalid', P.sn, P.se, sorted(cons)), '1', [], nontriv and P.naut > 1)
             # hypothesis antisymB of theorem ismags_find_exact on the constraints the real code made
             cset = {tuple(c) for c in cons}
             chk.count('hyp_antisymB=%s' % all((hi, lo) not in cset for lo, hi in cset))
